@@ -201,7 +201,9 @@ let print_snapshot (s : sys) =
        (List.map
           (fun w ->
             let a = match w.w_assign with Sn (a, p, f) -> Printf.sprintf "sn:a%s:p%s:f%s" (tids_s a) (tids_s p) (res_s f) | Mn (t, root) -> Printf.sprintf "mn:%s:%d" (tid_s t) (if root then 1 else 0) in
-            Printf.sprintf "%s:%s:r%s:b%s:gg%s:s%d" (sn w.w_id) a (res_s w.w_res) (blocked_s w.w_blocked) (sn w.w_group) (if w.w_stopping then 1 else 0))
+            (* F: Worker::is_free() - after fix F28 it also requires that no task is being retracted from the worker *)
+            let free = worker_is_free w && (not w.w_stopping) && not (retracting_from c w.w_id) in
+            Printf.sprintf "%s:%s:r%s:b%s:gg%s:s%d:F%d" (sn w.w_id) a (res_s w.w_res) (blocked_s w.w_blocked) (sn w.w_group) (if w.w_stopping then 1 else 0) (if free then 1 else 0))
           c.c_workers));
   Printf.printf "= QUE %s\n"
     (join " "
@@ -292,10 +294,10 @@ let parse_wrk_line body =
   List.map
     (fun tok ->
       match String.split_on_char ':' tok with
-      | [ id; "sn"; a; p; f; r; b; g; s ] ->
+      | [ id; "sn"; a; p; f; r; b; g; s; _ ] ->
           { w_id = n_of_int (ios id); w_assign = Sn (parse_tids (drop1 a), parse_tids (drop1 p), parse_res (drop1 f)); w_res = parse_res (drop1 r); w_blocked = parse_blocked (drop1 b);
             w_group = n_of_int (ios (String.sub g 2 (String.length g - 2))); w_stopping = s = "s1" }
-      | [ id; "mn"; t; root; r; b; g; s ] ->
+      | [ id; "mn"; t; root; r; b; g; s; _ ] ->
           { w_id = n_of_int (ios id); w_assign = Mn (parse_tid t, root = "1"); w_res = parse_res (drop1 r); w_blocked = parse_blocked (drop1 b);
             w_group = n_of_int (ios (String.sub g 2 (String.length g - 2))); w_stopping = s = "s1" }
       | _ -> failwith ("wrk " ^ tok))
@@ -669,6 +671,7 @@ let process_trace header lines =
                      ([NoPanicS7.sol_ok]), the request / answer satisfies [NoPanicU0.op_ok] *)
                   (match o with
                    | OpSched sol when s.s_core.c_flag && not (sol_ok s.s_core sol) -> add_mon (Printf.sprintf "M C09 FAIL hypothesis-sol_ok-violated step=%d" !stepno)
+                   | OpSched sol when s.s_core.c_flag && not (sched_retract_ok s.s_core sol) -> add_mon (Printf.sprintf "M C09 FAIL hypothesis-sched_retract_ok-violated step=%d" !stepno)
                    | _ -> ());
                   if not (op_ok s o) then add_mon (Printf.sprintf "M C09 FAIL hypothesis-op_ok-violated step=%d" !stepno);
                   match step s o with
